@@ -159,6 +159,8 @@ class Gen:
                 if c < 0:
                     c += 1 << (8 * width)
                 self.emit(ind, "w.constant(%s, %d);" % (v, c))
+            if tname in ("Level16", "Level32"):
+                self.emit(ind, "w.level(%s);" % v)
             scope[name] = (v, None)
             return width, width
         if tname in BOOL:
@@ -312,6 +314,11 @@ def plan(corpus, item, ver):
         g = Gen(Resolver(corpus, ver))
         lo, hi = g.members(d["members"], 1, {})
     except Unsupported:
+        # The bytes-side bounded class (strings / variable arrays, frames <= BOUNDED_N bytes) is implemented but OFF by
+        # default: measured on this machine, every one of 225 such harnesses exceeded 120 s (N = 16) and a single
+        # CString message did not finish in 600 s at N = 12 (Vec growth + UTF-8 validation over symbolic bytes).
+        if os.environ.get("VERIF_BOUNDED_CONTAINERS") != "1":
+            raise
         g = Gen(Resolver(corpus, ver), allow_loops=True)
         lo, hi = g.members(d["members"], 1, {})
     if not g.loops and hi > MAX_BODY:
@@ -349,7 +356,7 @@ def harness(item, d, g, lo, hi, hname):
     L.append('            assert!(!w.bad_enum, "C04:undeclared-enum-value-is-rejected");')
     if lo == hi:
         L.append('            assert!(n == %d, "C04:fixed-size-message-rejects-other-body-lengths");' % lo)
-    L.append("            if canonical {")
+    L.append("            if canonical && !w.wide_level {")
     L.append('                assert!(r.is_empty(), "C01:decoder-consumes-the-whole-body");')
     L.append("                let mut out: Out<{ N + 16 }> = Out::new();")
     L.append('                assert!(crate::Message::write_into_vec(m, &mut out).is_ok(), "C01:re-encoding-succeeds");')
@@ -380,6 +387,17 @@ def harness(item, d, g, lo, hi, hname):
     L.append("            }")
     L.append("        }")
     L.append("    }")
+    if "w.level(" in "\n".join(g.lines):
+        L.append("    // last (recorded finding): Level16/Level32 are aliases of u16/u32 in the language but decode into a u8 Level")
+        L.append("    if let Ok(m) = &res {")
+        L.append("        if canonical && w.wide_level {")
+        L.append("            let mut out: Out<{ N + 16 }> = Out::new();")
+        L.append("            let _ = crate::Message::write_into_vec(m, &mut out);")
+        L.append("            let k: usize = kani::any();")
+        L.append("            kani::assume(k < n);")
+        L.append('            assert!(out.len == n && out.buf[k] == b[k], "C01:level16/32-value-above-255-survives-decode-then-encode");')
+        L.append("        }")
+        L.append("    }")
     L.append("    std::mem::forget(res);")
     L.append("}")
     return "\n".join(L) + "\n"
